@@ -94,6 +94,6 @@ MANIFEST = {
     'engine': 'E1',
     'technique': 'bounded model checking (cbmc) of C generated from the clang IR with floating point as NaN taint: constructor acceptance predicates, NaN propagation, throw frames and parser memory safety on arbitrary bytes',
     'text': 'Bounded solver verdicts on the real code for the registered entry points: constructors accept exactly the documented parameter ranges and otherwise throw GeographicErr; NaN arguments raise no exception and every dependent output is NaN; '
-            'failing calls throw only GeographicErr and leave their outputs untouched; the parsers are memory-safe on every byte string up to the stated lengths (shared harnesses of C04/C05/C18).',
-    'note': 'Registered entry points only (listed in the evidence), quick string lengths; NaN-taint abstraction for arithmetic; data-file readers and the remaining classes are not covered in the quick tier. Trusted: clang-14, vfw/cgen, cbmc 6.11, stubs.',
+            'failing calls throw only GeographicErr and leave their outputs untouched; the parsers are memory-safe on every byte string up to the stated lengths (shared harnesses of C04/C05/C18); the coefficient-file reader rejects a malformed header with GeographicErr before sizing anything from it.',
+    'note': 'Registered entry points only (listed in the evidence), quick string lengths; NaN-taint abstraction for arithmetic; of the data-file readers only the header validation of SphericalEngine::coeff::readcoeffs is decided (stream as environment); the remaining classes are not covered. Trusted: clang-14, vfw/cgen, cbmc 6.11, stubs.',
 }
